@@ -127,7 +127,7 @@ impl Check for C01 {
         "C01"
     }
     fn workloads(&mut self, tier: Tier, _seed: u64) -> Vec<(String, u64)> {
-        let k = if tier == Tier::Quick { 1 } else { 12 };
+        let k = if tier == Tier::Quick { 3 } else { 48 };
         vec![
             ("corpus".into(), docs::corpus().len() as u64),
             ("sweep".into(), docs::sweep_count()),
